@@ -593,6 +593,38 @@ def c20_cli(c):
         ([binary, "exec", f"{d}/definitely_missing_file.rock", f"{d}/case_0.rock"], "missing_file_first_of_two"),
         ([binary, "parse", f"{d}/definitely_missing_file.rock", f"{d}/case_0.rock"], "missing_file_first_of_two"),
     ]
+    # a file that is missing although a sibling with the same stem exists
+    import shutil as _sh
+    try:
+        _sh.copy(f"{d}/case_0.rock", f"{d}/sibling_stem.rock")
+        usage.append(([binary, "exec", f"{d}/sibling_stem.txt"], "missing_file_with_a_sibling_of_the_same_stem"))
+        usage.append(([binary, "lint", f"{d}/sibling_stem.txt"], "missing_file_with_a_sibling_of_the_same_stem"))
+    except OSError:
+        pass
+    # large programs: nothing is cut off (the last line printed is the last statement's)
+    for size_name, lines in (("70_kB", 5_000), ("1.2_MB", 80_000)) + ((("17_MB", 1_200_000),) if c["tier"] == "thorough" else ()):
+        path = f"{d}/large_{size_name}.rock"
+        with open(path, "w") as f:
+            f.write("say 123456789\n" * lines)
+            f.write("say \"the end\"\n")
+        rc, out, err, to = c["run_proc"]([binary, "exec", path], 600, stdin=b"")
+        runs += 1
+        merged.counters[f"large_program.{size_name}"] = merged.counters.get(f"large_program.{size_name}", 0) + 1
+        if to:
+            c["inconclusive"].append(f"large program {size_name} hit the watchdog")
+        elif rc != 0 or out.count(b"\n") != lines + 1 or not out.endswith(b"the end\n"):
+            sig = "cli:exec:large_program_cut_or_failed"
+            nl = out.count(b"\n")
+            tail, head = out[-30:], err[:200]
+            detail = (f"{size_name}: exit {rc}, {nl} lines of output (expected {lines + 1}), "
+                      f"ends with {tail!r}, stderr {head!r}")
+            replay = dict(property="C20", signature=sig, detail=detail, case=dict(lines=lines), cmd=[binary, "exec", path],
+                          tier=c["tier"], seed=c["seed"])
+            merged.add_violation(sig, detail, replay)
+        try:
+            os.remove(path)
+        except OSError:
+            pass
     for cmd, what in usage:
         rc, out, err, to = c["run_proc"](cmd, 60, stdin=b"")
         runs += 1
